@@ -34,6 +34,14 @@ def gen_cases(chk):
         p = b''.join(B.load_const(1 + k, args[k]) for k in range(5)) + b''.join(B.load_const(6 + k, saved[k]) for k in range(4))
         p += call_insn(hid, dst=rng.choice([0, 0, 3, 9])) + fold() + B.EXIT
         cases.append(Case(p, helpers=[(hid & 0xffffffff, hname)], fam='args:' + hname))
+    # several helpers registered at once, with ids on both sides of 2^31 and bound alternately to two different functions: each id
+    # must reach its own function whatever else is in the table
+    many = [1, 3, 0x7ffffffe, 0x7fffffff, 0x80000000, 0x80000001, 0xdeadbeef, 0xfffffffe, 0xffffffff]
+    for sets in (many, many[:5], many[4:], [1, 0x80000000], [0x7fffffff, 0xffffffff, 2]):
+        table = [(k, 'mix' if j % 2 == 0 else 'clobber') for j, k in enumerate(sets)]
+        for k in sets:
+            p = B.mov(1, 5) + B.mov(2, 0) + B.mov(3, 0) + B.mov(4, 0) + B.mov(5, 0) + call_insn(k if k < 2 ** 31 else k - 2 ** 32) + B.EXIT
+            cases.append(Case(p, helpers=table, fam='many-helpers'))
     # unknown ids: error when reached (interpreter); compile error (compilers)
     for hid in ids:
         cases.append(Case(B.mov(0, 7) + call_insn(hid) + B.EXIT, helpers=[((hid + 1) & 0xffffffff, 'mix')], fam='unknown'))
